@@ -33,8 +33,9 @@ func NewYamlDecoder(prefs YamlPreferences) Decoder {
 }
 
 func (dec *yamlDecoder) processReadStream(reader *bufio.Reader) (io.Reader, string, error) {
-	var commentLineRegEx = regexp.MustCompile(`^\s*#`)
-	var yamlDirectiveLineRegEx = regexp.MustCompile(`^\s*%YA`)
+	// (blanks only: \s would run over the end of a blank line into a comment on the next one)
+	var commentLineRegEx = regexp.MustCompile(`^[ \t]*#`)
+	var yamlDirectiveLineRegEx = regexp.MustCompile(`^[ \t]*%YA`)
 	var sb strings.Builder
 	for {
 		peekBytes, err := reader.Peek(4)
